@@ -21,4 +21,9 @@ CHECKS['C08'] = {'text': 'Bounded symbolic proof on the real Interpolation::Inte
    'the extremum functions return exactly the min/max over the curve values at the limits and prefactor*knot values inside, for a prefactor of either sign (set by Set_Prefactor and Multiply).',
    'note': 'N in {3,4} quick, <=6 thorough; 3x3 (quick) to 4x4 grids; exact real arithmetic. That the min/max over limits and interior knots is the extremum of the curve rests on C01 (monotone between knots). Two genuine defects found by this check were repaired in /repo (fix: commits ce707d1, 1135743).',
    'technique': EA}
+CHECKS['C04'] = {'text': 'Every public Vector/Matrix operation is executed symbolically through its real member function, operator and free-operator spelling for every shape tuple up to the bound with symbolic entries: '
+   'it returns exactly when the shapes conform (otherwise the process exits after a diagnostic, with no out-of-bounds access on the way), each result entry equals its definition, compound assignment equals the binary form, '
+   '(AB)^T = B^T A^T (bit-identical up to commutativity), (A^T)^T = A (identical symbols), A*I = I*A = A, matrix-vector/vector-matrix/outer/dot/cross products, scalar product/division, Trace, Norm, predicates, Sub_Matrix, Return_/Delete_ Row/Column, brackets, diagonal and block constructors.',
+   'note': 'All shapes with dimensions 1..3 (quick) / 1..4 (thorough), block constructor with 2x2 blocks of shapes <=2; entries are exact reals. Two genuine defects found by this check were repaired in /repo (fix: commits 07a8a28, d8c04f6).',
+   'technique': EA}
 NOT_APPLICABLE = {}
